@@ -8,6 +8,7 @@ import (
 	"go/ast"
 	"go/token"
 	"go/types"
+	"os"
 	"sort"
 	"strings"
 
@@ -36,7 +37,11 @@ type Prog struct {
 	fnByName   map[string]*ssa.Function
 	usedLemmas map[string]bool
 	macros     map[string]*Macro // "<pkgpath>:<name>"
+	final      *finalInfo
 }
+
+// finalProg: the program whose final-field analysis State.heap consults.
+var finalProg *Prog
 
 func loadProg(repoDir string, patterns []string, tags string) (*Prog, error) {
 	cfg := &packages.Config{Mode: packages.LoadAllSyntax, Dir: repoDir, BuildFlags: []string{"-tags=" + tags}}
@@ -69,6 +74,10 @@ func loadProg(repoDir string, patterns []string, tags string) (*Prog, error) {
 	prog, _ := ssautil.AllPackages(pkgs, ssa.NaiveForm|ssa.GlobalDebug)
 	prog.Build()
 	P.prog = prog
+	if os.Getenv("VERIF_NO_FINAL") == "" {
+		P.computeFinalFields()
+		finalProg = P
+	}
 	// contracts
 	for path, p := range P.allPkgs {
 		if !strings.HasPrefix(path, P.modulePath) {
